@@ -100,7 +100,7 @@ func (g *gen) genStruct(depth int) *Struct {
 			f.Sub.build()
 			inlineUsed = true
 		case KSInt, KSStr, KSVInt:
-			f.Policy = []string{"", "", "replace", "append", "prepend"}[t.Choose(5, "slice-policy")]
+			f.Policy = []string{"", "", "replace", "append", "prepend", "merge"}[t.Choose(6, "slice-policy")]
 		}
 		if k <= KStr && t.Chance(1, 5, "required") {
 			f.Required = true
@@ -261,8 +261,12 @@ func (fc *FieldCase) rawInput() interface{} {
 		return map[string]interface{}{"p": []interface{}{uint64(10 + n%80)}, "q": []interface{}{uint64(11 + n%80)}}
 	case KF64, KUFloat, KF32:
 		return float64(n) + 0.5
-	case KStr, KPStr, KVStr, KUStr:
+	case KStr, KPStr, KVStr, KUStr, KPUStr:
 		return "s" + itoa(n)
+	case KMUCfg:
+		return map[string]interface{}{"p": map[string]interface{}{"a": uint64(1), "b": uint64(2)}, "q": map[string]interface{}{"a": uint64(1)}}
+	case KURefl:
+		return map[string]interface{}{"p": uint64(1), "q": uint64(2), "r": uint64(3)}
 	case KBool, KUBool:
 		return n%2 == 0
 	case KDur, KPDur:
@@ -427,6 +431,12 @@ func (sc *StructCase) prefill(v reflect.Value) {
 			f.SetString("old")
 		case KUStr:
 			f.Set(reflect.ValueOf(UStr{S: "old"}))
+		case KPUStr:
+			f.Set(reflect.ValueOf(&UStr{S: "old"}))
+		case KMUCfg:
+			f.Set(reflect.ValueOf(map[string]UCfg{"p": {N: 5}, "z": {N: 9}}))
+		case KURefl:
+			f.Set(reflect.ValueOf(URefl{N: 5}))
 		case KUInt:
 			f.Set(reflect.ValueOf(UInt{I: 5}))
 		case KUBool:
@@ -515,6 +525,7 @@ func combine(policy string, old, nw reflect.Value) reflect.Value {
 	case "prepend":
 		return reflect.AppendSlice(reflect.AppendSlice(reflect.MakeSlice(t, 0, 0), nw), old)
 	}
+	// "merge" is the default spelled out
 	// default: index-wise, the longer tail survives
 	n := old.Len()
 	if nw.Len() > n {
@@ -676,6 +687,19 @@ func (sc *StructCase) apply(v reflect.Value, present bool) {
 			f.Set(reflect.ValueOf(strp(in.(string))))
 		case KUStr:
 			f.Set(reflect.ValueOf(UStr{S: "<" + in.(string) + ">"}))
+		case KPUStr:
+			f.Set(reflect.ValueOf(&UStr{S: "<" + in.(string) + ">"}))
+		case KMUCfg:
+			m := map[string]UCfg{}
+			if !f.IsNil() {
+				for _, k := range f.MapKeys() {
+					m[k.String()] = f.MapIndex(k).Interface().(UCfg)
+				}
+			}
+			m["p"], m["q"] = UCfg{N: 102}, UCfg{N: 101}
+			f.Set(reflect.ValueOf(m))
+		case KURefl:
+			f.Set(reflect.ValueOf(URefl{N: 203}))
 		case KUInt:
 			f.Set(reflect.ValueOf(UInt{I: 2 * int64(in.(uint64))}))
 		case KUBool:
